@@ -340,7 +340,7 @@ def _c_kvs(tab, kvs) -> str:
 
 
 def _c_nats(xs) -> str:
-    return '[' + '; '.join(str(int(x)) for x in xs) + ']'
+    return '[' + '; '.join(str(int(x)) if int(x) >= 0 else '999' for x in xs) + ']'   # -1 = object unknown to the history
 
 
 def coq_wop(tab, op) -> str:
